@@ -428,6 +428,7 @@ int main(int argc, char **argv) {
     else if (OPT("--tier")) a.tier = strcmp(v, "thorough") == 0;
     else if (OPT("--maxdim")) a.maxdim = atoi(v);
     else if (OPT("--mindim")) GEN_MINDIM = atoi(v);
+    else if (OPT("--wide")) GEN_WIDE = atoi(v);
     else if (OPT("--fam")) a.fam = v;
     else if (OPT("--ops")) a.ops = v;
     else if (OPT("--arg")) a.arg = v;
